@@ -19,7 +19,7 @@ LEVEL_TEXT = ("Generated filter-free queries (all selector kinds, child/descenda
               "an independent reference evaluator. Sampled, not exhaustive.")
 LEVEL_NOTE = "Trusted: the reference evaluator and parser in vlib/ref (self-test + generator/parser triangulation on every case)."
 
-NAMES = ["a", "b", "c", "d", "e", "0", "1", "-1", "a b", "", "'", "\u00e9", "\U0001F600", "_x", "A1", "\\", "a\\", "\\\\", "\"", "a'b\"", "\\'"]
+NAMES = ["a", "b", "c", "d", "e", "0", "1", "-1", "a b", "", "'", "\u00e9", "\U0001F600", "_x", "A1", "\\", "a\\", "\\\\", "\"", "a'b\"", "\\'", "e\u0301", "\u00e9", "\u212b", "\u00c5", "\uf900", "a\n"]
 
 
 
@@ -40,6 +40,19 @@ def plan(tier, seed):
 
 
 def examine(case):
+    if case.get("kind") == "deep":
+        # a value nested hundreds / thousands of levels, an environment whose max_recursion_depth allows it, and the
+        # recursion headroom a host program with the default limit would have
+        from checks import c08
+        from vlib.ref import abnf
+        doc = c08.deep_doc(case["depth"], case["shape"])
+        c2 = {"q": case["q"], "ast": abnf.parse(case["q"]), "doc": doc}
+        with lib.host_stack():
+            f = diff.examine_find(c2, env=lib.make_env(max_recursion_depth=100000))
+        if f:
+            f["expected"] = f["observed"] = None
+            f["what"] = f"value nested {case['depth']} levels ({case['shape']}): " + f["what"]
+        return f
     return diff.examine_find(case)
 
 
@@ -88,9 +101,20 @@ def run_shard(spec, shard):
             shard.fail(f["bucket"], case, f)
 
     drive(rng(), spec["n"], spec["seed"], body)
+    if spec["shard"] == 0 and not spec.get("interp"):
+        for depth in (300, 1100, 3000):
+            for shape in ("obj", "arr", "mix"):
+                for q in ("$..leaf", "$..x", "$..k.leaf"):
+                    case = {"kind": "deep", "depth": depth, "shape": shape, "q": q}
+                    shard.case(key=("deep", depth, shape, q), nontrivial=True, classes={"deep-value"}, sample=case)
+                    f = examine(case)
+                    if f:
+                        shard.fail(f["bucket"], case, f)
 
 
 def minimise(case, failure, tier):
+    if case.get("kind") == "deep":
+        return case, failure
     return diff.minimise_qd(case, failure, examine)
 
 
